@@ -125,3 +125,93 @@ func genKern(o *out, r *rng, n int) {
 		emit("ksegint", []geometry.Point{a, b, c, d})
 	}
 }
+
+// kproc ops: processPoints on arbitrary doubles
+func genKproc(o *out, r *rng, n int) {
+	for i := 0; i < n; i++ {
+		mode := r.intn(8)
+		m := r.pick([]int{0, 1, 2, 3, 3, 4, 5, 6, 8, 12, 20, 40})
+		var pts []geometry.Point
+		for k := 0; k < m; k++ {
+			p := kPoint(r, mode)
+			if k > 0 && r.coin(0.12) {
+				p = pts[r.intn(len(pts))] // duplicates
+			}
+			if k > 1 && r.coin(0.12) { // collinear continuation
+				a, b := pts[k-2], pts[k-1]
+				p = geometry.Point{X: b.X + (b.X - a.X), Y: b.Y + (b.Y - a.Y)}
+			}
+			pts = append(pts, p)
+		}
+		closed := r.coin(0.6)
+		if closed && m > 0 && r.coin(0.5) {
+			pts = append(pts, pts[0])
+			if r.coin(0.1) {
+				pts[len(pts)-1] = geometry.Point{X: -pts[0].X * 0, Y: pts[0].Y} // -0 / +0 variants of the closing vertex
+				if pts[0].X != 0 {
+					pts[len(pts)-1] = pts[0]
+				}
+			}
+		}
+		var sb []string
+		for _, p := range pts {
+			sb = append(sb, hexF(p.X), hexF(p.Y))
+		}
+		c := 0
+		if closed {
+			c = 1
+		}
+		o.op("kproc %d %d %s", c, len(pts), strings.Join(sb, " "))
+	}
+}
+
+// xkern ops: small lattices around a base point, scaled by 2^k (micro-degree grids, huge grids)
+func genXkern(o *out, r *rng, n int) {
+	for i := 0; i < n; i++ {
+		k := r.pick([]int{-40, -30, -20, -20, -10, -4, 0, 7, 20, 60, -100, 300})
+		bx, by := 0, 0
+		if r.coin(0.6) {
+			bx, by = r.rangeI(-(1<<23), 1<<23), r.rangeI(-(1<<23), 1<<23) // e.g. 100 + i*2^-20 as integers times 2^-20
+		}
+		span := r.pick([]int{2, 3, 4, 20, 1000})
+		pt := func() (int, int) { return bx + r.rangeI(-span, span), by + r.rangeI(-span, span) }
+		ax, ay := pt()
+		cx, cy := pt()
+		var px, py, dx, dy int
+		bxx, byy := pt()
+		switch r.intn(4) {
+		case 0:
+			px, py = pt()
+		case 1: // on the line through a, b
+			t := r.rangeI(-2, 3)
+			px, py = ax+t*(bxx-ax), ay+t*(byy-ay)
+		case 2:
+			px, py = ax, ay
+		default:
+			px, py = bxx, byy
+		}
+		switch r.intn(4) {
+		case 0:
+			dx, dy = pt()
+		case 1: // collinear with a, b
+			t, s := r.rangeI(-2, 3), r.rangeI(-2, 3)
+			cx, cy = ax+t*(bxx-ax), ay+t*(byy-ay)
+			dx, dy = ax+s*(bxx-ax), ay+s*(byy-ay)
+		case 2: // sharing an end point
+			cx, cy = bxx, byy
+			dx, dy = pt()
+		default: // touching in the interior
+			dx, dy = px, py
+		}
+		lim := 1 << 24
+		ok := true
+		for _, v := range []int{ax, ay, bxx, byy, px, py, cx, cy, dx, dy} {
+			if v > lim || v < -lim {
+				ok = false
+			}
+		}
+		if ok {
+			o.op("xkern %d %d %d %d %d %d %d %d %d %d %d", k, ax, ay, bxx, byy, px, py, cx, cy, dx, dy)
+		}
+	}
+}
